@@ -313,9 +313,10 @@ def abs_c16(w, sess, frames, t0, hs_len, res):
             if len(pl) < 2 or pl[:5] == b"BADIP":
                 continue
             u = cls["uid"] & 255
-            if last_first == (step, u, r["qn"]):
-                continue        # same answer sent to the remembered duplicate as well
-            last_first = (step, u, r["qn"])
+            lkn = wire.qn_str([l.lower() for l in r["labels"]])
+            if last_first == (step, u, lkn, pl):
+                continue        # same answer sent to the remembered duplicate as well (its spelling may differ in case)
+            last_first = (step, u, lkn, pl)
             evs.append({"e": "AnsFirst", "u": u, "nm": r["qn"],
                         "lk": wire.qn_str([l.lower() for l in r["labels"]]), "kind": cls["kind"], "pl": pl.hex()})
     res["stats"]["redeliveries"] = nred
